@@ -153,3 +153,23 @@ Theorem C10_failure_results_ignored :
   model (Req r SKeep f true p) = model (Req r SStd f true p).
 Proof. exact failure_results_ignored. Qed.
 Print Assumptions C10_failure_results_ignored.
+
+(* Revocation: Storage.RevokeToken returns an *oidc.Error of the storage's choice.  Whatever its
+   type - any of the library's error types, a type of the storage's own, the empty type, or no
+   *oidc.Error at all (then server_error) - a reached failure of RevokeToken is answered with a
+   status: 5xx exactly for server_error, 4xx for every other type, the type as the error code,
+   no credential; on both routers, every client, token kind and hint. *)
+Theorem C10_revocation_mapping :
+  forall r sv c t hint p kd rest,
+  faults p (handler r sv (FRevoke c t hint)) = (MRevokeToken, kd) :: rest ->
+  let a := answer p (handler r sv (FRevoke c t hint)) in
+  (r_cls a = K4xx \/ r_cls a = K5xx) /\ r_creds a = [] /\ r_err a = code_str (dcode kd) /\
+  (r_cls a = K5xx <-> dcode kd = EServerError).
+Proof. exact revocation_mapping. Qed.
+Print Assumptions C10_revocation_mapping.
+
+Theorem C10_revocation_mapping_nonvacuous :
+  exists r sv c t hint p kd rest,
+    faults p (handler r sv (FRevoke c t hint)) = (MRevokeToken, kd) :: rest /\ dcode kd = EAccessDenied.
+Proof. exact revocation_mapping_nonvacuous. Qed.
+Print Assumptions C10_revocation_mapping_nonvacuous.
